@@ -600,16 +600,12 @@ def _small_periodic(o, d=None):
 
 # oracle messages a known class may produce; anything else under the same spec class is NOT that class
 _CLASS_MESSAGES = {
-    'split-periodic-small-basis': ('the original object gives', 'has domain', 'raised IndexError', 'raised ValueError', 'split returned',
-                                   'cannot be evaluated', 'blocks cover parametric volume'),
     'split-periodic-first-point-outside-base-period': ('raised ValueError: could not broadcast', 'raised IndexError', 'has domain',
                                                        'the original object gives', 'cannot be evaluated'),
-    'split-periodic-point-at-end': ('raised IndexError',),
     'append-order-1-pieces': ('appended pieces at',),
     'append-at-discontinuous-knot': ('appended pieces at',),
     'subdivide-periodic-direction-without-split': ('subdivide raised IndexError',),
     'subdivide-periodic-direction-single-split': ('subdivide raised', 'not a list of spline objects'),
-    'subdivide-periodic-direction': ('subdivide raised IndexError',),
 }
 
 
@@ -623,21 +619,15 @@ def _spec_class(s):
             info = gen.basis_info(b)
             if s['knots'] and not (info['start'] <= s['knots'][0] < info['end']):
                 return 'split-periodic-first-point-outside-base-period'
-            if _small_periodic(s['obj'], s['dir']):
-                return 'split-periodic-small-basis'
-            if any(abs(x - info['end']) < gen.TOL for x in s['knots'][1:]):
-                return 'split-periodic-point-at-end'
+            # (`split-periodic-small-basis`, `split-periodic-point-at-end`: fixed with periodic insert_knot —
+            #  cover branch for n < p+k, end clamp — and no longer classes)
         return None
     if k == 'split_append':
         b = s['obj']['bases'][0]
-        if b['periodic'] >= 0 and _small_periodic(s['obj'], 0):
-            return 'split-periodic-small-basis'
         if b['order'] == 1:
             return 'append-order-1-pieces'
         info = gen.basis_info(b)
         T = info['end'] - info['start']
-        if b['periodic'] >= 0 and any(abs(x - info['end']) < gen.TOL for x in s['knots'][1:]):
-            return 'split-periodic-point-at-end'
         for x in s['knots']:
             xs = [x, x - T, x + T] if b['periodic'] >= 0 else [x]
             if any(_mult(b, y) >= b['order'] for y in xs):
@@ -651,11 +641,7 @@ def _spec_class(s):
                 return 'subdivide-periodic-direction-without-split'
             if b['periodic'] >= 0 and n[d] == 1:
                 return 'subdivide-periodic-direction-single-split'
-        if _small_periodic(o):
-            return 'split-periodic-small-basis'
-        for d, b in enumerate(o['bases']):
-            if b['periodic'] >= 0:
-                return 'subdivide-periodic-direction'
+        # (`subdivide-periodic-direction`, `split-periodic-small-basis`: fixed with periodic insert_knot)
     return None
 
 
